@@ -2,16 +2,17 @@
 """Summarises a tools/matrix.py run (its JSON, or its log when the run was stopped early) into seeded/matrix.json + seeded/MATRIX.md"""
 import sys, os, re, json, ast
 V = os.path.dirname(os.path.dirname(os.path.abspath(__file__)))
-src = sys.argv[1]
 res = {}
-if src.endswith(".json"):
-    for name, r in json.load(open(src)).items():
-        res[name] = {c: v["rc"] for c, v in r.items() if isinstance(v, dict) and v.get("rc")}
-else:
-    for l in open(src):
-        m = re.match(r"^(C\d\d-[A-F]) (\{.*\})\s*$", l)
-        if m:
-            res[m.group(1)] = ast.literal_eval(m.group(2))
+for src in sys.argv[1:]:      # later sources override earlier ones (re-runs of rows whose patch had to be re-ported)
+    if src.endswith(".json"):
+        for name, r in json.load(open(src)).items():
+            if "_apply_error" not in r:
+                res[name] = {c: v["rc"] for c, v in r.items() if isinstance(v, dict) and v.get("rc")}
+    else:
+        for l in open(src):
+            m = re.match(r"^(C\d\d-[A-F]) (\{.*\})\s*$", l)
+            if m and (ast.literal_eval(m.group(2)) or m.group(1) not in res):
+                res[m.group(1)] = ast.literal_eval(m.group(2))
 json.dump(res, open(os.path.join(V, "seeded", "matrix.json"), "w"), indent=1, sort_keys=True)
 checks = ["C%02d" % i for i in range(1, 21)]
 out = ["# Seeded changes x checks (quick tier, seed 1)\n", "`x` = the check exits 1 with a VIOLATION line against the change; `?` = harness error / time budget (inconclusive); "
